@@ -709,6 +709,7 @@ NOISE_BY_KIND = {
     "DropProcedure": {"DEFAULT": "argument default: DEFAULT == ="},
     "CreateProcedure": {"DEFAULT": "argument default: DEFAULT == ="},
     "CreateTrigger": {"DEFAULT": "argument default in EXECUTE FUNCTION f(..): DEFAULT == ="},
+    "CreateExtension": {"WITH": "CREATE EXTENSION x [WITH] [SCHEMA s] ..: WITH is an optional noise word (PostgreSQL grammar)"},
     "ShowColumns": {"FIELDS": "FIELDS == COLUMNS", "IN": "IN == FROM"},
     "ShowTables": {"IN": "IN == FROM"},
 }
